@@ -129,6 +129,9 @@ TNext == /\ verdict = "ok" /\ l <= Len(Traces[tid])
             IN /\ st' = s2 /\ verdict' = v /\ l' = l + 1 /\ UNCHANGED tid
                /\ (v # "ok" \/ last) => PrintT(<<"VERDICT", tid, v, l>>)
                /\ (v # "ok") => PrintT(Detail(s2, e, v))
-               /\ (v # "ok" /\ s2.kf # {}) => PrintT(<<"TAINT", tid, s2.kf>>)
+               \* (a consumer that an in-place update failed to re-route - pending F-C09-1 - can close a reference cycle
+               \*  through the mutated tensor's new graph: objects that only a cycle collector would free)
+               /\ LET tk == s2.kf \cup (IF v = "leak" /\ s2.pend # {} THEN {"F-C09-1"} ELSE {}) IN
+                  (v # "ok" /\ tk # {}) => PrintT(<<"TAINT", tid, tk>>)
 TSpec == TInit /\ [][TNext]_vars
 =============================================================================
